@@ -113,9 +113,11 @@ theorem faithful_of_same_or_plain {m : Msg} {x y : M Msg} (hx : Faithful m x)
     · have := hx.missChild w c (he ▸ hc); exact ⟨this.1, (h w).1.trans this.2⟩
     · exact absurd hc (hp.2.2 c)
 
-theorem faithful_wrapMissingPV {m : Msg} {inner : Msg → M Msg} (hi : Faithful m (inner m)) :
-    Faithful m (wrapMissingPV inner m) := by
-  refine faithful_of_same_or_plain hi fun w => ?_
+/-- The version-query decorator: the inner outcome, or a plain failure (the query's write failed); the
+registry is the inner computation's. -/
+theorem wrapMissingPV_same_or_plain (inner : Msg → M Msg) (m : Msg) (w : W) :
+    (wrapMissingPV inner m w).2.st.nodes = (inner m w).2.st.nodes ∧
+    ((wrapMissingPV inner m w).1 = (inner m w).1 ∨ Plain (wrapMissingPV inner m w).1) := by
   rw [wrapMissingPV_eq]
   simp only []
   have aw := after_write (inner m w).1 (inner m w).2 (encode versionQuery)
@@ -132,9 +134,15 @@ theorem faithful_wrapMissingPV {m : Msg} {inner : Msg → M Msg} (hi : Faithful 
     · simp only [hc, if_true]; exact ⟨congrArg St.nodes aw.1, aw.2⟩
     · simp only [hc]; exact ⟨rfl, Or.inl rfl⟩
 
-theorem faithful_wrapMissingNC {m : Msg} {inner : Msg → M Msg} (hi : Faithful m (inner m)) :
-    Faithful m (wrapMissingNC inner m) := by
-  refine faithful_of_same_or_plain hi fun w => ?_
+theorem faithful_wrapMissingPV {m : Msg} {inner : Msg → M Msg} (hi : Faithful m (inner m)) :
+    Faithful m (wrapMissingPV inner m) :=
+  faithful_of_same_or_plain hi fun w => wrapMissingPV_same_or_plain inner m w
+
+/-- The missing-node/child decorator: the inner outcome, or a plain failure (the request's write failed);
+the registry is the inner computation's. -/
+theorem wrapMissingNC_same_or_plain (inner : Msg → M Msg) (m : Msg) (w : W) :
+    (wrapMissingNC inner m w).2.st.nodes = (inner m w).2.st.nodes ∧
+    ((wrapMissingNC inner m w).1 = (inner m w).1 ∨ Plain (wrapMissingNC inner m w).1) := by
   cases hin : inner m w with
   | mk r w' =>
     cases r with
@@ -151,6 +159,10 @@ theorem faithful_wrapMissingNC {m : Msg} {inner : Msg → M Msg} (hi : Faithful 
           | cons f fs => cases f <;> simp [Plain]
       · have he' : missingCaught e = false := by simpa using he
         rw [wrapMissingNC_other inner m e w w' hin he']; exact ⟨rfl, Or.inl rfl⟩
+
+theorem faithful_wrapMissingNC {m : Msg} {inner : Msg → M Msg} (hi : Faithful m (inner m)) :
+    Faithful m (wrapMissingNC inner m) :=
+  faithful_of_same_or_plain hi fun w => wrapMissingNC_same_or_plain inner m w
 
 theorem faithful_pure (m : Msg) : Faithful m (pure m) :=
   ⟨fun w r h => by simpa [M.pure] using h.symm, fun w n h => by simp [M.pure] at h, fun w c h => by simp [M.pure] at h⟩
